@@ -358,6 +358,7 @@ func cmdCheck(args []string) int {
 			for _, r := range j.res {
 				if len(r.LocalTypes) > 0 {
 					lt[r.Key] = r.LocalTypes
+					lt[r.Key+"#all"] = r.AllLocals
 				}
 			}
 		}
